@@ -67,11 +67,42 @@ def value(r, depth=3, names=None, budget=None, strings=None, falsy_bias=0.0):
     return out
 
 
+def table(r, names=None, strings=None, falsy_bias=0.0):
+    """An array (or object) of 2-6 similar records: what filters are typically applied to."""
+    names = names or SIMPLE_NAMES
+    cols = r.sample(list(names), min(len(names), r.randrange(1, 4)))
+    domain = [scalar(r, strings) for _ in range(3)] + [fresh(r.choice(FALSY)), [1, 2], {"a": 1}]
+    rows = []
+    for _ in range(r.randrange(2, 7)):
+        k = r.random()
+        if k < 0.15:
+            rows.append(fresh(r.choice(domain)))      # a scalar / odd row among the records
+            continue
+        row = {}
+        for c in cols:
+            if r.random() < 0.8:
+                row[c] = fresh(r.choice(domain))
+        rows.append(row)
+    if r.random() < 0.25:
+        keys = r.sample(list(names), min(len(names), len(rows)))
+        return dict(zip(keys, rows))
+    return rows
+
+
 def container(r, depth=3, names=None, budget=None, strings=None, falsy_bias=0.0):
     """A non-scalar value (so that queries have something to select)."""
     names = names or SIMPLE_NAMES
     if budget is None:
         budget = [25]
+    k = r.random()
+    if k < 0.3:
+        return table(r, names, strings, falsy_bias)
+    if k < 0.45:
+        key = r.choice(list(names))
+        out = {key: table(r, names, strings, falsy_bias)}
+        if r.random() < 0.6:
+            out[r.choice(list(names))] = value(r, depth - 1, names, budget, strings, falsy_bias)
+        return out
     if r.random() < 0.5:
         n = r.randrange(1, 6)
         return [value(r, depth - 1, names, budget, strings, falsy_bias) for _ in range(n)]
